@@ -497,8 +497,12 @@ def lifecycle_cases(requests=('incr', 'decr', 'set', 'restart', 'reload',
                          {"numprocesses": 2, "shell": False}]))
                     if set_other else st.fixed_dictionaries(
                         {"numprocesses": st.integers(0, 4)})}))),
-            'restart': req('restart', ww(st.fixed_dictionaries(
-                {"name": name, "match": st.just("simple")}))),
+            'restart': req('restart', ww(st.one_of(
+                st.fixed_dictionaries(
+                    {"name": name, "match": st.just("simple")}),
+                st.fixed_dictionaries(
+                    {"name": name, "match": st.just("simple")}),
+                st.just({"name": "W*"})))),
             'reload': req('reload', ww(st.fixed_dictionaries(
                 {"name": name,
                  "graceful": st.sampled_from([True, True, False]),
@@ -506,11 +510,16 @@ def lifecycle_cases(requests=('incr', 'decr', 'set', 'restart', 'reload',
             'stop': req('stop', ww(st.one_of(
                 st.fixed_dictionaries({"name": name,
                                        "match": st.just("simple")}),
-                st.just({})))),
+                st.fixed_dictionaries({"name": name,
+                                       "match": st.just("simple")}),
+                st.just({}), st.just({"name": "w*"}),
+                st.just({"name": "w[0-9]+", "match": "regex"})))),
             'start': req('start', ww(st.one_of(
                 st.fixed_dictionaries({"name": name,
                                        "match": st.just("simple")}),
-                st.just({})))),
+                st.fixed_dictionaries({"name": name,
+                                       "match": st.just("simple")}),
+                st.just({}), st.just({"name": "w*"})))),
         }
         pool = [table[r] for r in requests]
         if kill_cmd:
